@@ -144,6 +144,9 @@ def evaluate(R, runs, oracle, finding_of=None, nontrivial=None, max_report=5):
             R.violation(dict(kind="harness-error", case=case_json(case), detail=run["error"]), nofail=True)
             continue
         viols = oracle(run)
+        if run.get("hang") and not any(t == "hang" for t, _ in viols):
+            # a dud command that does not come back is a failing input for every property that promises an outcome
+            viols = list(viols) + [("hang", run["hang"])]
         unknown = []
         in_region = False
         for tag, text in viols:
